@@ -34,6 +34,7 @@ Scripts == <<
   H \o <<D("s", 1, 1), D("c", 1, 1), D("s", 3, 1), D("c", 0, 1)>>,                   \* chunks of both directions together exceed maxChunks
   <<Syn, SynAck, RstAck("s")>>,                                                      \* accept, then abort: the server's first segment after its SYN|ACK is RST|ACK
   <<Syn, SynAck, RstAck("c"), D("s", 0, 1)>>,                                        \* the client's first ACK-bearing segment after its SYN is RST|ACK
-  HE \o <<[D("c", 0, 2) EXCEPT !.x = 128], [D("s", 0, 2) EXCEPT !.x = 64], [D("c", 2, 1) EXCEPT !.x = 32], [Fin("c") EXCEPT !.x = 64], Fin("s")>>
+  HE \o <<[D("c", 0, 2) EXCEPT !.x = 128], [D("s", 0, 2) EXCEPT !.x = 64], [D("c", 2, 1) EXCEPT !.x = 32], [Fin("c") EXCEPT !.x = 64], Fin("s")>>,
+  H \o <<D("s", 0, 2), D("c", 0, 1), D("s", 2, 2), D("c", 1, 2), D("s", 4, 1), Fin("s"), Fin("c")>>    \* several deliveries in each direction, in order
 >>
 =============================================================================
